@@ -263,8 +263,8 @@ PROP = dict(
     gen=gen_C16,
     inventory=inventory,
     extra=extra,
-    cfgs_quick=["std-debug", "std-release", "nosimd-release"],
-    cfgs_thorough=["std-debug", "std-release", "nosimd-debug", "nosimd-release"],
+    cfgs_quick=["std-debug", "std-release", "nosimd-release", "std-o0-debug"],
+    cfgs_thorough=["std-debug", "std-release", "nosimd-debug", "nosimd-release", "std-o0-debug"],
     strength="partial",
     partial_note="hardware faults, UB that does not fault and compiler behaviour are outside the Lean model; "
                  "the theorem is about the footprint model tied to a source inventory",
